@@ -378,7 +378,49 @@ pub fn run_data(max_n: usize, out: &mut impl Write) {
         writeln!(out, "art id=data-{name} path=dataset {} n={} cuts=0,{} status=ok partial=1 glen={} pnodes={} parcs={} arcs={} total_nodes={} total_arcs={} g={} graph={}",
             c.describe().replace("comp=greedy", "comp=any"), take, take, bytes.len() * 8, take, num_arcs(&g), num_arcs(&g), n, arcs,
             fmt_lists(&g), hex(&bytes)).unwrap();
-        writeln!(out, "#impl id=data-{name} reload=ok").unwrap();
+        // the same files through the library's other decoders: complete sequential scans
+        // under the in-memory load modes and random access to the first and the LAST nodes
+        // (cnr-2000-t.graph is byte-granular: its length is not a multiple of the word size,
+        // which only the end of the stream can reveal); all must agree with the
+        // memory-mapped sequential scan.  File mode is left out: it is documented to need
+        // files padded to the word size (`webgraph run pad`).
+        let reload = crate::util::catch(std::panic::AssertUnwindSafe(|| -> Result<(), String> {
+            fn scan<F: webgraph::prelude::SequentialDecoderFactory>(s: &BvGraphSeq<F>) -> (usize, u64, u64, Vec<Vec<usize>>) {
+                let (mut nodes, mut arcs, mut h) = (0usize, 0u64, 0xcbf29ce484222325u64);
+                let mut tail: std::collections::VecDeque<Vec<usize>> = Default::default();
+                let mut it = s.iter();
+                while let Some((x, succ)) = lender::Lender::next(&mut it) {
+                    let l: Vec<usize> = succ.into_iter().collect();
+                    h = (h ^ x as u64).wrapping_mul(0x100000001b3);
+                    for &y in &l { h = (h ^ y as u64).wrapping_mul(0x100000001b3); }
+                    nodes += 1; arcs += l.len() as u64;
+                    tail.push_back(l); if tail.len() > 300 { tail.pop_front(); }
+                }
+                (nodes, arcs, h, tail.into_iter().collect())
+            }
+            let reference = scan(&seq);
+            if reference.0 != n || reference.1 != arcs { return Err(format!("FAIL(mmap-scan:nodes={}/{};arcs={}/{})", reference.0, n, reference.1, arcs)); }
+            macro_rules! mode { ($M:ident) => {{
+                let s = BvGraphSeq::with_basename(&base).endianness::<BE>().graph_mode::<$M>().load().map_err(|e| format!("FAIL({}:load:{e})", stringify!($M)))?;
+                let r = scan(&s);
+                if (r.0, r.1, r.2) != (reference.0, reference.1, reference.2) { return Err(format!("FAIL(scan-differs:{})", stringify!($M))); }
+                let g2 = BvGraph::with_basename(&base).endianness::<BE>().graph_mode::<$M>().load().map_err(|e| format!("FAIL({}:load-ra:{e})", stringify!($M)))?;
+                let t = reference.3.len();
+                for (i, l) in reference.3.iter().enumerate() {
+                    let x = n - t + i;
+                    let got: Vec<usize> = g2.successors(x).into_iter().collect();
+                    if &got != l || g2.outdegree(x) != l.len() { return Err(format!("FAIL(random-access-differs:{}:node{x})", stringify!($M))); }
+                }
+                for x in 0..g.len().min(300) {
+                    let got: Vec<usize> = g2.successors(x).into_iter().collect();
+                    if got != g[x] { return Err(format!("FAIL(random-access-differs:{}:node{x})", stringify!($M))); }
+                }
+            }}; }
+            mode!(Mmap); mode!(LoadMem); mode!(LoadMmap);
+            Ok(())
+        }));
+        let rl = match reload { Ok(Ok(())) => "ok".to_string(), Ok(Err(e)) => sanitize(&e), Err(p) => sanitize(&format!("FAIL(panic:{p})")) };
+        writeln!(out, "#impl id=data-{name} reload={rl}").unwrap();
     }
 }
 
